@@ -1,7 +1,7 @@
 CONSTANTS
-  NArb = 2
+  NArb = 1
   Thr = {t1}
-  PreCreated = 2
+  PreCreated = 1
   Kinds = {"spawn", "spawn_fn"}
   TaskStop = FALSE
   AtomicCalls = TRUE
@@ -25,5 +25,5 @@ CONSTANTS
 SPECIFICATION Spec
 VIEW View
 SYMMETRY ThrSym
-INVARIANTS TypeOK C10_StartOrderRespectsSendOrder C10_AtMostOnce C10_OnOwnThread C10_NothingAfterStop C10_SpawnFalseWhenGone C10_JoinAfterLoopEnd C10_BlockOnOutput
+INVARIANTS C10_OnOwnThread
 CHECK_DEADLOCK FALSE
